@@ -468,7 +468,7 @@ pub fn run(args: &Args) -> Report {
             }
             if thorough {
                 // length 3 from the richest base states
-                if matches!(base, Base::Established | Base::Requested) && !binds {
+                if !binds {
                     for a in &al {
                         for b in &al {
                             for c in &al {
@@ -484,10 +484,10 @@ pub fn run(args: &Args) -> Report {
     }
     rep.bounds.insert("alphabet_size".into(), serde_json::json!(al.len()));
     rep.bounds.insert("invalid_messages".into(), serde_json::json!(inv.len()));
-    rep.bounds.insert("sequence_length".into(), serde_json::json!(if thorough { "2 everywhere, 3 from Established and Requested" } else { "2" }));
+    rep.bounds.insert("sequence_length".into(), serde_json::json!(if thorough { "2 everywhere (binds on and off), 3 from every base state with binds off" } else { "2" }));
     rep.bounds.insert("base_states".into(), serde_json::json!(BASES.iter().map(|b| format!("{b:?}")).collect::<Vec<_>>()));
     let plan = Plan {
-        ks: if thorough { vec![0, 1] } else { vec![0] },
+        ks: if thorough { vec![0, 1, 2] } else { vec![0] },
         env: 0,
         fault: 0,
         total_wall: Duration::from_secs(if thorough { 1500 } else { 40 }),
